@@ -47,9 +47,32 @@ def mutations(src: str, lo: int, hi: int):
     for n in ast.walk(tree):
         if isinstance(n, (ast.FunctionDef, ast.ClassDef, ast.Module, ast.AsyncFunctionDef)) and n.body and isinstance(n.body[0], ast.Expr) and isinstance(n.body[0].value, ast.Constant) and isinstance(n.body[0].value.value, str):
             docstrings.add(id(n.body[0].value))
+    # type annotations, assertions and overload stubs are not behaviour: skip everything below them
+    skip = set()
+    for n in ast.walk(tree):
+        subs = []
+        if isinstance(n, (ast.FunctionDef, ast.AsyncFunctionDef)):
+            subs += [a.annotation for a in n.args.args + n.args.kwonlyargs + n.args.posonlyargs if a.annotation is not None]
+            subs += [x.annotation for x in (n.args.vararg, n.args.kwarg) if x is not None and x.annotation is not None]
+            if n.returns is not None:
+                subs.append(n.returns)
+            subs += list(getattr(n, "type_params", []))
+            if any(isinstance(d, ast.Name) and d.id == "overload" for d in n.decorator_list):
+                subs.append(n)
+        if isinstance(n, ast.ClassDef):
+            subs += list(getattr(n, "type_params", [])) + list(n.bases)
+        if isinstance(n, ast.AnnAssign):
+            subs.append(n.annotation)
+        if isinstance(n, ast.Assert):
+            subs.append(n)
+        if isinstance(n, ast.Call) and isinstance(n.func, ast.Name) and n.func.id == "cast" and n.args:
+            subs.append(n.args[0])
+        for s_ in subs:
+            for x in ast.walk(s_):
+                skip.add(id(x))
     for n in ast.walk(tree):
         ln = getattr(n, "lineno", None)
-        if ln is None or not (lo <= ln <= hi):
+        if ln is None or not (lo <= ln <= hi) or id(n) in skip:
             continue
         txt = ast.get_source_segment(src, n)
         if isinstance(n, ast.BinOp):
